@@ -397,8 +397,10 @@ def rule_flag(prog, rep):
                             if not (nm.startswith("_LOGGER.") or nm.endswith(".write")):
                                 harmless = False
                         elif isinstance(s, ast.Assign):
-                            if not all(isinstance(t, ast.Name) and t.id in ("header",) for t in s.targets):
-                                harmless = False
+                            picks_printer = all(isinstance(t, ast.Name) for t in s.targets) and "print_pqr_header" in U(s.value) and not any(
+                                isinstance(c_, ast.Call) and U(c_.func).split(".")[-1] not in ("partial",) for c_ in ast.walk(s.value))
+                            if not all(isinstance(t, ast.Name) and t.id in ("header",) for t in s.targets) and not picks_printer:
+                                harmless = False  # (choosing which header printer to call - by name or functools.partial - is header construction)
                         elif isinstance(s, (ast.If, ast.Pass, ast.Continue)):
                             pass
                         else:
